@@ -333,6 +333,15 @@ func genC09Plan(seed uint64, tier string) *ATPlan {
 	// back one holds it): the per-branch reference model does not cover that
 	p := genATPlanTweaked(seed, tier, "rollback", func(g *simkit.Gen, o *GenOpts) { o.UniqueIndex = false })
 	p.Cfg.DataValidation = true
+	// the query that reads the current rows for the comparison may itself fail
+	// (lock wait timeout behind the foreign writer): the delivery must fail then,
+	// the coordinator model delivers the rollback again
+	g := simkit.NewGen(seed ^ 0xc09f)
+	for i := range p.Episodes {
+		if g.Prob(0.2) {
+			p.Episodes[i].P2Faults = []DBFault{{Class: "select-for-update", Nth: g.Range(1, 2), Kind: "error", Num: 1205}}
+		}
+	}
 	return p
 }
 
